@@ -72,7 +72,7 @@ func c19(c *q.Ctx) {
 		amount := "big.NewInt(0){SetString(i:KContext.Args(p1)[\"amount\"],10)}"
 		snd := "govern_token.(*KernMethod).balanceOf(p0,p1,i:KContext.Initiator(p1))#0"
 		c.Guard(tr, q.Cond{Canon: "(big.(*Int).Cmp(big.NewInt(0){Sub(" + snd + ".TotalBalance," + snd + ".LockedBalance[])}," + amount + ") < 0)", Sense: true}, q.ToCall("Put"), q.Opt{})
-		c.Guard(tr, q.Cond{Canon: "(-1 == big.(*Int).Cmp(" + amount + ",big.NewInt(0)))", Sense: true}, q.ToCall("Put"), q.Opt{})
+		c.Guard(tr, q.Cond{Canon: "(-1 == big.(*Int).Cmp(" + amount + ",big.NewInt(0)))", Sense: true}, q.ToCall("Put"), q.Opt{Entry: true})
 		c.Guard(tr, q.Cond{Canon: "big.(*Int).SetString(*)#1", Sense: false}, q.ToCall("Put"), q.Opt{})
 		c.Gate(tr, "KernMethod.balanceOf", q.ToCall("Put"), q.Opt{Arg: "i:KContext.Initiator(p1)"})
 		// debit and credit use the same amount
@@ -80,7 +80,6 @@ func c19(c *q.Ctx) {
 		subArgs := bigArgs(tr, "Sub", snd+".TotalBalance")
 		addArgs := bigArgs(tr, "Add", "phi{*balanceOf(*)#0*}.TotalBalance")
 		c.Check(len(subArgs) == 1 && len(addArgs) == 1 && subArgs[0] == amount && addArgs[0] == amount, "K11", gt+"(*KernMethod).TransferGovernTokens", "the amount debited from the sender is the amount credited to the receiver", "-", "debit "+strings.Join(subArgs, ",")+" / credit "+strings.Join(addArgs, ","))
-		c.Before(tr, q.ToCall("big::Int.Cmp"), q.ToCall("Put"), "the availability test precedes the writes")
 		noLockedMutation(c, tr)
 		c.Gate(tr, "Put", q.ToSuccess(), q.Opt{K1Only: true, Min: 2})
 	}
